@@ -1066,7 +1066,12 @@ func (x *FnExec) unop(fr *frame, n *node, in *ssa.UnOp) error {
 		// name loaded values to keep terms readable and small
 		nm := x.q.define(fr.tag+"_"+in.Name(), x.q.sortOf(t), term)
 		x.assumeValid(reach, nm, t)
-		x.assumeAllocT(st, reach, nm, t, 1)
+		if cur, touched := st.heap[a.Heap]; a.Heap != "" && (!touched || cur == a.Heap) {
+			// read from a heap this execution has not written: the value existed at function entry
+			x.assumeAllocT(&State{heap: map[string]string{}}, reach, nm, t, 1)
+		} else {
+			x.assumeAllocT(st, reach, nm, t, 1)
+		}
 		env[in] = Val{S: nm, T: t}
 	case token.NOT:
 		env[in] = Val{S: not(v.S), T: in.Type()}
